@@ -2,11 +2,13 @@
 from . import core_targets as K
 
 LEVEL = 'proof'
-TAGS = ('C02', 'tree', 'wf')
+TAGS = ('C02', 'tree', 'wf', 'idle')
 TRUSTED = ['abstract handler contract = definition of a well-formed chart (DESIGN 5.2)',
            'induction over depth for the tree lemmas (each lemma is a discharged obligation)',
            'Event.__init__ contract (proved under C25)']
-ASSUMPTIONS = ['state functions obey the handler contract (that is the input domain of the property)']
+ASSUMPTIONS = ['Inv_idle (temp.fun == state.fun between public calls) is what every operation assumes; its '
+               'preservation by start_at, dispatch, is_in and child_state is checked here too (tag idle)',
+               'state functions obey the handler contract (that is the input domain of the property)']
 EXPLANATION = ('The offer protocol is ghost state of the handler contract: every offer must go to the next enclosing '
                'state of the active path, a declining state receives exactly one EMPTY_SIGNAL before the next offer, '
                'nothing is offered after an answer.  The postcondition of dispatch: without a transition no entry, '
@@ -16,4 +18,4 @@ MIN_OBLIGATIONS = 30
 
 def build(src, tier):
     w = K.world_for(src, tier)
-    return [(w, [K.t_tree_lemmas(), K.t_dispatch(), K.t_top()])]
+    return [(w, [K.t_tree_lemmas(), K.t_dispatch(), K.t_top(), K.t_is_in(), K.t_child_state(), K.t_start_at()])]
